@@ -115,7 +115,26 @@ class _Normaliser(ast.NodeTransformer):
         comp = ast.ListComp(elt=c.args[0], generators=[ast.comprehension(target=loop.target, iter=loop.iter, ifs=conds, is_async=0)])
         return ast.copy_location(ast.Assign(targets=[ast.Name(id=t, ctx=ast.Store())], value=ast.copy_location(comp, loop)), init)
 
+    @staticmethod
+    def _split_parallel(stmts):
+        """a, b = x, y   ->   a = x ; b = y     when no right-hand side reads one of the targets (no swap) and targets are plain names"""
+        out = []
+        for s in stmts:
+            if isinstance(s, ast.Assign) and len(s.targets) == 1 and isinstance(s.targets[0], ast.Tuple) and isinstance(s.value, ast.Tuple) and \
+                    len(s.targets[0].elts) == len(s.value.elts) >= 2 and all(isinstance(t, ast.Name) for t in s.targets[0].elts) and \
+                    not any(isinstance(v, ast.Starred) for v in s.value.elts):
+                tnames = {t.id for t in s.targets[0].elts}
+                reads = {n.id for v in s.value.elts for n in ast.walk(v) if isinstance(n, ast.Name)}
+                calls = any(isinstance(n, (ast.Call, ast.Yield, ast.Await, ast.NamedExpr)) for v in s.value.elts for n in ast.walk(v))
+                if not (tnames & reads) and len(tnames) == len(s.targets[0].elts) and not calls:
+                    for t, v in zip(s.targets[0].elts, s.value.elts):
+                        out.append(ast.copy_location(ast.Assign(targets=[ast.Name(id=t.id, ctx=ast.Store())], value=v), s))
+                    continue
+            out.append(s)
+        return out
+
     def _block(self, stmts):
+        stmts = self._split_parallel(stmts)
         # explicit accumulation loops become comprehensions (one shape for both spellings)
         res = []
         k = 0
